@@ -172,6 +172,8 @@ def run(case, scn, workdir, crash_at=None, resume=None, collect=False, probes=Tr
             out.update(status="crashed", error=f"{type(e).__name__}: {e}")
         except (ValueError, FloatingPointError) as e:
             out.update(status="failed", error=f"{type(e).__name__}: {e}")
+        except Exception as e:  # noqa: BLE001 -- unexpected exception from aspire: classified by the check, like runner.run_process does
+            out.update(status="error", error=f"{type(e).__name__}: {e}")
     finally:
         es.__exit__(None, None, None)
         install(prev)
@@ -355,8 +357,15 @@ def judge(case, workdir, scn, want):
     where = r["where"]
     if r["status"] != "ok":
         benign = "contains NaN" in (r["error"] or "")
-        return {"violations": [], "aborted": {"why": "run did not finish", "error": r["error"], "benign_initial_nan": benign},
-                "evaluations": 1, "events": 0, "nontrivial_keys": [], "digest": digest_of(r["status"]), "probes": {}}
+        V = []
+        if "c17" in want:
+            # what the model seam saw before the run stopped is still a verdict (a likelihood call without its prior may well be
+            # what made the run raise)
+            for f in r["model"].c17_failures[:3]:
+                V.append(O.violation("c17.prior_attached", f"BlackJAXSMC likelihood call ({'inside the compiled kernel' if f.get('traced') else 'eager'}): {f['why']}"
+                                     + f" (the run then stopped: {r['error']})", {**where, "sampler": "blackjax_smc", "traced": bool(f.get("traced"))}))
+        return {"violations": V, "aborted": {"why": "run did not finish", "error": r["error"], "benign_initial_nan": benign},
+                "evaluations": 1, "events": 0, "nontrivial_keys": [], "digest": digest_of([r["status"], [v["message"] for v in V]]), "probes": {}}
     res = as_result(r, scn)
     V, probes, evaluations = [], {"blackjax_runs": 1}, 1
     # a population collapsed onto one point makes the whitening 0/0 (DESIGN 7.3): nothing downstream is defined
